@@ -314,9 +314,59 @@ def async_parts(tier):
     return [{'scenario': sc} for sc in SCENARIOS]
 
 
+# ---- the real Client underneath ------------------------------------------------------------------------------------------
+def h_real(t, part):
+    """SimpleClient / AsyncSimpleClient on the real Client / AsyncClient (fake engine.io transport, the harness as server):
+    the order in which the real client reports 'disconnect' and '__disconnect_final', the catch-all registration and the
+    namespace bookkeeping are part of the run. Sequential; the plan is the symbolic input."""
+    from harness import c14
+    if 'first' in part:
+        t.force([part['first']])
+    plan = [t.choice(len(c14.SC_OPS)) for _ in range(part['n'])]
+    with notrace():
+        tr = c14.run_simple(part['async'], plan, live_only=True)
+        t.reached('real-client')
+        names = [c14.SC_OPS[o] for o in plan]
+        buf, ended = [], False
+        if not tr or tr[0] != ('api', 'connect', 'returned', None):
+            return Fail('simple:real:connect', repr(tr[:1]))
+        for ent in tr[1:]:
+            if ent[0] == 'arrived':
+                buf.append(ent[1])
+            elif ent[0] == 'ended':
+                ended = True
+            elif ent[0] == 'api':
+                _, tag, how, val = ent
+                if tag == 'receive':
+                    want = ('returned', buf.pop(0)) if buf else ('raised', 'DisconnectedError' if ended else 'TimeoutError')
+                    got = (how, list(val) if how == 'returned' and isinstance(val, (list, tuple)) else val)
+                elif tag == 'emit':
+                    want = ('raised', 'DisconnectedError') if ended else ('returned', None)
+                    got = (how, val)
+                elif tag == 'call':
+                    want = ('raised', 'DisconnectedError') if ended else ('returned', ['pong', 1])
+                    got = (how, list(val) if how == 'returned' and isinstance(val, (list, tuple)) else val)
+                else:       # disconnect()
+                    want, got = ('returned', None), (how, val)
+                    ended = True
+                if got != want:
+                    return Fail('simple:real:%s:%s' % (tag, 'after-end' if ended else 'connected'),
+                                'plan %r: %s() %s %r, expected %s %r; trace %r' % (names, tag, got[0], got[1], want[0], want[1], tr))
+            elif ent[0] == 'contained' and ent[1]:
+                return Fail('simple:real:exception', 'plan %r: %r' % (names, ent[1]))
+    return None
+
+
+def real_parts(tier):
+    from harness import c14
+    n = 4 if tier == 'quick' else 5
+    return [{'async': a, 'n': n, 'first': f} for a in (False, True) for f in range(len(c14.SC_OPS))]
+
+
 CHECKS = [
     dict(name='threads', fn=h_threads, parts=thread_parts, budget={'quick': 80, 'thorough': 900}, per_path_s=30),
     dict(name='asyncio', fn=h_async, parts=async_parts, budget={'quick': 120, 'thorough': 300}, per_path_s=30),
+    dict(name='real-client', fn=h_real, parts=real_parts, budget={'quick': 120, 'thorough': 300}, per_path_s=30),
 ]
 
 META = dict(
@@ -325,7 +375,11 @@ META = dict(
                 'disconnect), the application is a consumer thread; pre-emption before every event and buffer operation '
                 'and right after a wait returns; a timed wait may expire only while its flag is unset. Real '
                 'AsyncSimpleClient on miniloop with every await-point interleaving. The schedule is the only symbolic '
-                'input: systematic schedule enumeration driven by the solver (low solver leverage, stated).',
+                'input: systematic schedule enumeration driven by the solver (low solver leverage, stated). real-client: the '
+                'simple clients on the real Client/AsyncClient over a fake engine.io transport, sequential plans of 4 (thorough 5) '
+                'operations from {emit, call answered, one / two events arrive, receive, receive that times out, the server '
+                'ends the namespace, disconnect()}, checked against a reference model (buffered events first and in order, '
+                'then TimeoutError while connected and DisconnectedError once the connection has ended for good).',
     bounds={'quick': 'eight scenarios (two arrivals || two receives; a greeting dispatched while connect() is still running; burst of three; loss and reconnection between arrivals; '
                      'final disconnect; emit during a temporary loss; emit after the end; receive during a loss); all '
                      'schedules at the granularity of event/buffer operations (decision bound 80)',
